@@ -7,9 +7,9 @@ import (
 	"math/big"
 	"os"
 	"os/exec"
-	"sync/atomic"
 	"strings"
 	"sync"
+	"sync/atomic"
 	"time"
 )
 
@@ -33,20 +33,20 @@ type Model struct {
 
 // Solver is a long-lived solver process fed through stdin.
 type Solver struct {
-	Path      string
-	Args      []string
-	TimeoutMS int
-	cmd       *exec.Cmd
-	in        io.WriteCloser
-	out       *bufio.Reader
-	mu        sync.Mutex
-	Queries   int
-	Time      time.Duration
-	Errors    int
+	Path         string
+	Args         []string
+	TimeoutMS    int
+	cmd          *exec.Cmd
+	in           io.WriteCloser
+	out          *bufio.Reader
+	mu           sync.Mutex
+	Queries      int
+	Time         time.Duration
+	Errors       int
 	HardTimeouts int
-	OneShots  int
-	cache     map[string]cached
-	CacheHits int
+	OneShots     int
+	cache        map[string]cached
+	CacheHits    int
 }
 
 type cached struct {
